@@ -23,10 +23,10 @@ func init() {
 			"ground truth is the generator's own message list with the index of each completing byte (independent of the library and of the reference receiver, which is run as a cross-check of the generator)",
 			"a status byte may be omitted iff the previous non-real-time message was a channel message with the same status",
 			"drivers.Reader callback pads 0/1-data messages with zeros to 3 bytes (internal contract), normalised before comparison; midi.ListenTo deliveries are compared byte-exact",
-			"testdrv time stamps carry one constant offset per session (Listen stamps the real clock, Sleep moves a virtual one): the monitor requires one offset in [-60 s, 0] consistent with every delivery; exact stamps are decided at the drivers.Reader level",
+			"time stamps are exact at both levels: at the drivers.Reader level the accumulated delta arguments, at the midi.ListenTo level the time on the test driver's clock (Driver.Sleep) since Listen, in whole milliseconds",
 			"F8..FF are all treated as real-time (delivered as one-byte messages)",
 		},
-		Require:         []string{"runs_l1", "runs_l2", "elisions", "rt_inside_message", "rt_inside_sysex", "sysex_exact_buffer", "split_inside_message", "deliveries_checked", "generator_crosschecks", "sysex_sweep_lengths", "sandwich_chunks", "reconfigured_sessions", "clock_wrap_streams", "giant_sysex_streams", "empty_deliveries", "two_listener_sessions", "nested_runs_l1", "nested_runs_l2", "nested_rest_starts_in_running_status", "stall_runs_over_2s", "pauses_over_1s_inside_a_message", "pauses_over_1s_inside_a_sysex"},
+		Require:         []string{"runs_l1", "runs_l2", "elisions", "rt_inside_message", "rt_inside_sysex", "sysex_exact_buffer", "split_inside_message", "deliveries_checked", "generator_crosschecks", "sysex_sweep_lengths", "sandwich_chunks", "reconfigured_sessions", "clock_wrap_streams", "giant_sysex_streams", "empty_deliveries", "two_listener_sessions", "nested_runs_l1", "nested_runs_l2", "nested_rest_starts_in_running_status", "nested_rest_continues_after_the_callback", "fractional_interval_sessions", "nested_rest_continues_after_the_callback", "stall_runs_over_2s", "pauses_over_1s_inside_a_message", "pauses_over_1s_inside_a_sysex"},
 		FakeTimeWorkers: 2,
 		Run:             runC04,
 	})
@@ -163,7 +163,7 @@ func (k *c04Run) check(w *gen.Wire, cuts []int, deltas []int32, cfg liveCfg, wit
 			if err != nil {
 				c.Violation("l2-send-error", fmt.Sprintf("Send returned %v", err), in, nil, err.Error())
 			} else {
-				verify("l2", got2, false)
+				verify("l2", got2, true)
 			}
 		}
 	}
@@ -574,14 +574,32 @@ func runC04(c *mon.Ctx) {
 			return
 		}
 		bytewise := r.Bool()
-		in := map[string]any{"bytes": mon.Hex(w.Bytes), "delivered_from_outside": mon.Hex(first), "delivered_from_inside_the_callback_of": mon.Hex(w.Deliveries[j]), "rest": mon.Hex(rest), "rest_byte_by_byte": bytewise, "config": cfg.String()}
+		// only the first part of the rest comes from inside the callback (it may end in the middle of a message or
+		// of a sysex: a reply that is still being sent when the callback returns); the remainder follows from outside
+		inside := len(rest)
+		if r.P(1, 2) {
+			inside = r.Intn(len(rest) + 1)
+			c.Count("nested_rest_continues_after_the_callback", 1)
+		}
+		after := rest[inside:]
+		rest = rest[:inside]
+		in := map[string]any{"bytes": mon.Hex(w.Bytes), "delivered_from_outside": mon.Hex(first), "delivered_from_inside_the_callback_of": mon.Hex(w.Deliveries[j]), "rest_from_inside_the_callback": mon.Hex(rest), "remainder_from_outside_after_the_callback": mon.Hex(after), "rest_byte_by_byte": bytewise, "config": cfg.String()}
 		feedRest := func(feed func([]byte)) {
 			if bytewise {
 				for q := range rest {
 					feed(rest[q : q+1])
 				}
-			} else {
+			} else if len(rest) > 0 {
 				feed(rest)
+			}
+		}
+		feedAfter := func(feed func([]byte)) {
+			if bytewise {
+				for q := range after {
+					feed(after[q : q+1])
+				}
+			} else if len(after) > 0 {
+				feed(after)
 			}
 		}
 		cmp := func(level string, got [][]byte) {
@@ -614,9 +632,12 @@ func runC04(c *mon.Ctx) {
 					feedRest(func(b []byte) { rd.EachMessage(b, 1) })
 				}
 			})
-			if !c.Guard("panic:reader-nested", in, func() { rd.EachMessage(first, 1) }) {
+			if !c.Guard("panic:reader-nested", in, func() {
+				rd.EachMessage(first, 1)
+				feedAfter(func(b []byte) { rd.EachMessage(b, 1) })
+			}) {
 				c.Count("nested_runs_l1", 1)
-				if w.Deliveries[j][0] < 0xF0 && rest[0] < 0x80 {
+				if w.Deliveries[j][0] < 0xF0 && len(rest) > 0 && rest[0] < 0x80 {
 					c.Count("nested_rest_starts_in_running_status", 1)
 				}
 				cmp("l1", got)
@@ -642,7 +663,15 @@ func runC04(c *mon.Ctx) {
 				}
 			}, l.opts(cfg)...)
 			if err == nil {
-				if !c.Guard("panic:listento-nested", in, func() { l.out.Send(first); stop() }) {
+				if !c.Guard("panic:listento-nested", in, func() {
+					l.out.Send(first)
+					feedAfter(func(b []byte) {
+						if e := l.out.Send(b); e != nil && sendErr == nil {
+							sendErr = e
+						}
+					})
+					stop()
+				}) {
 					c.Count("nested_runs_l2", 1)
 					if sendErr != nil {
 						c.Violation("l2-send-error", fmt.Sprintf("Send from inside the listener callback returned %v", sendErr), in, nil, sendErr.Error())
@@ -653,6 +682,69 @@ func runC04(c *mon.Ctx) {
 			}
 		}
 		c.DistinctBytes(w.Bytes, []byte(fmt.Sprint("nested", j, bytewise, cfg)))
+	})
+
+	// inter-arrival times that are not whole milliseconds on the test driver's clock (1.5 ms, 0.9 ms, a MIDI clock at
+	// 120 bpm = 20.833 ms): a time stamp is the time since Listen in whole milliseconds, however many deliveries came before
+	c.Each("fractional-intervals", c.N(600, 30_000), func(i int64, r *mon.Rand) {
+		cfg := liveCfg{sysex: true, clock: true, sense: true, buf: uint32(r.Pick(0, 64))}
+		msgs := gen.LiveSequence(r, r.Range(5, 60), cfg.bufSize(), true)
+		if i%3 == 0 {
+			for k := 0; k < 1000; k++ { // a long run: the error of a per-delivery truncation would grow with it
+				msgs = append(msgs, []byte{0x90 | byte(k&7), byte(k & 127), 1})
+			}
+		}
+		w := gen.Serialize(r, msgs, gen.SerOpts{})
+		var chunks [][]byte
+		var deltas []int32
+		var frac []time.Duration
+		var at []time.Duration
+		var now time.Duration
+		tick := time.Duration(r.Pick(1500, 900, 20833, 333, 1001, 999, 250, 10416)) * time.Microsecond
+		last := 0
+		for k := range w.EndIdx {
+			if end := w.EndIdx[k] + 1; end > last {
+				chunks = append(chunks, w.Bytes[last:end])
+				d := tick
+				if r.P(1, 5) {
+					d = time.Duration(r.Intn(5000)) * time.Microsecond
+				}
+				deltas = append(deltas, int32(d/time.Millisecond))
+				frac = append(frac, d%time.Millisecond)
+				now += d
+				at = append(at, now)
+				last = end
+			}
+		}
+		in := map[string]any{"messages": len(chunks), "interval": tick.String(), "config": cfg.String(), "first bytes": mon.Hex(head(w.Bytes, 60))}
+		l := newL2()
+		liveFrac = frac
+		defer func() { liveFrac = nil }()
+		var got []obs
+		var err error
+		if c.Guard("panic:listento", in, func() { got, err = l.run(cfg, chunks, deltas) }) {
+			return
+		}
+		c.Count("fractional_interval_sessions", 1)
+		c.Eval(1)
+		if err != nil {
+			c.Violation("l2-send-error", fmt.Sprintf("Send returned %v", err), in, nil, err.Error())
+			return
+		}
+		if len(got) != len(chunks) {
+			c.Violation("l2-count", fmt.Sprintf("%d messages sent one per call, %d delivered", len(chunks), len(got)), in, len(chunks), len(got))
+			return
+		}
+		base := int64(l2Base / time.Millisecond)
+		for k, o := range got {
+			want := int64((l2Base + at[k]) / time.Millisecond)
+			if !bytes.Equal(o.msg, chunks[k]) || int64(o.ts) != want {
+				c.Violation("l2-timestamp-fractional", fmt.Sprintf("message %d of %d (% X), sent %v after Listen on the driver's clock (interval %v): time stamp %d ms after the first advance, want %d (whole milliseconds of the elapsed time); delivered as % X", k, len(got), chunks[k], l2Base+at[k], tick, int64(o.ts)-base, want-base, o.msg), in, want, o.ts)
+				return
+			}
+			c.Count("deliveries_checked", 1)
+		}
+		c.DistinctBytes(w.Bytes, []byte(fmt.Sprint(deltas, frac)))
 	})
 
 	// real pauses between the deliveries (workers on the virtual process clock): seconds, minutes,
